@@ -183,10 +183,15 @@ class Machine:
         self.hdr = None
         self.model_vars = {}
         self.real_mul = False
+        self.facts = {}
+        self.mul_seen = set()
+        self.fsolver = z3.Solver()
+        self.fsolver.set("timeout", solver.FEAS_TIMEOUT_MS)
         self.assume(self.L >= 0)
         i = z3.Int("i!inp")
         self.assume(z3.ForAll([i], z3.And(self.inp[i] >= 0, self.inp[i] <= 255)), qf_also=False)
         self.byte_lemma_arrays = [self.inp]
+        self.hinted = set()
 
     # ---- infrastructure
     def fresh(self, name, sort="int"):
@@ -217,13 +222,25 @@ class Machine:
             for c in cond.children():
                 self.assume(c, qf_also)
             return
+        if z3.is_quantifier(cond) and cond.is_exists():
+            consts = [self.fresh("ex_" + cond.var_name(i)) for i in range(cond.num_vars())]
+            self.assume(z3.substitute_vars(cond.body(), *reversed(consts)), qf_also)
+            return
         self.pc.append(cond)
+        self.ctx.keep.append(cond)  # cache keys use AST ids: keep every term alive so that ids are never reused
         if qf_also and not solver.has_quant(cond):
             self.pc_qf.append(cond)
+            self.fsolver.add(cond)
 
     def byte_range_hint(self, term):
-        """inp bytes are 0..255: instantiate the range lemma for a read term (helps the solver)."""
-        self.assume(z3.And(term >= 0, term <= 255))
+        """Elements of byte arrays (the input stream, `bytes` parameters) are 0..255: instantiate that axiom for a
+        term that is read, so that the quantifier-free path condition knows it (keeps infeasible forks out)."""
+        if is_z3(term) and z3.is_select(term) and any(term.arg(0).eq(a) for a in self.byte_lemma_arrays):
+            k = term.get_id()
+            if k not in self.hinted:
+                self.hinted.add(k)
+                self.assume(z3.And(term >= 0, term <= 255))
+        return term
 
     def branch(self, cond, tag):
         """Fork on a symbolic condition; returns the Python bool taken on this path."""
@@ -232,8 +249,8 @@ class Machine:
         cond = simp(cond)
         if isinstance(cond, bool):
             return cond
-        ft = solver.feasible(self.pc_qf, cond)
-        ff = solver.feasible(self.pc_qf, z3.Not(cond))
+        ft = self.feas(cond)
+        ff = self.feas(z3.Not(cond))
         if ft and not ff:
             self.assume(cond)
             return True
@@ -248,6 +265,27 @@ class Machine:
             return True
         self.assume(z3.Not(cond))
         return False
+
+    def feas(self, cond):
+        """Over-approximate satisfiability of (quantifier-free part of the path condition) and cond, on the
+        machine's incremental solver; `unknown` counts as feasible."""
+        if cond is not None:
+            self.ctx.keep.append(cond)
+        key = (tuple(p.get_id() for p in self.pc_qf), cond.get_id() if cond is not None else None)
+        c = solver._feas_cache.get(key)
+        if c is not None:
+            return c
+        t0 = time.time()
+        self.fsolver.push()
+        if cond is not None:
+            self.fsolver.add(cond)
+        r = self.fsolver.check()
+        self.fsolver.pop()
+        solver.stats["feas_queries"] += 1
+        solver.stats["feas_seconds"] += time.time() - t0
+        res = r != z3.unsat
+        solver._feas_cache[key] = res
+        return res
 
     def oblige(self, oid, goal, detail="", known=None, env=None):
         """Record and discharge an obligation under the current path condition; then assume it.
@@ -265,13 +303,14 @@ class Machine:
                 whens = [to_z3(self.truthy(self.eval_spec(k["when"], env))) for k in known]
                 for k, w in zip(known, whens):
                     # the finding is present on this path iff its case is reachable here
-                    if solver.feasible(self.pc_qf, w):
+                    if self.feas(w):
                         self.ctx.findings_present.setdefault(k["finding"], full)
                 goal = simp(z3.Or([strict] + whens))
         if goal is True:
             self.obligations.append(Obligation(full, "proved", "simplifier", 0.0, pathsig=",".join(self.pathsig)))
             return
         g = z3.BoolVal(False) if goal is False else goal
+        self.ctx.keep.append(g)
         key = (full, tuple(h.get_id() for h in self.pc), g.get_id())
         cached = self.ctx.ob_cache.get(key)
         if cached is not None:
@@ -418,6 +457,8 @@ class Machine:
                 pass
             if name in self.ctx.specfuns:
                 return self.ctx.specfuns[name]
+            if name in self.ctx.spec_consts:
+                return self.ctx.spec_consts[name]
         consts = self.ctx.module_consts(self.unit["module"])
         if name in consts:
             return consts[name]
@@ -669,6 +710,13 @@ class Machine:
         if str(a) > str(b):
             a, b = b, a
         r = MUL(a, b)
+        key = (a.get_id(), b.get_id())
+        if key not in self.mul_seen and not a.eq(b):
+            # commutativity instance (a valid fact about multiplication), so that congruence can relate
+            # products whose factors are later shown equal to factors written in the other order
+            self.mul_seen.add(key)
+            self.ctx.keep.extend([a, b])
+            self.assume(MUL(a, b) == MUL(b, a))
         return simp(coef * r) if coef != 1 else r
 
     def realify(self, e):
@@ -793,9 +841,13 @@ class Machine:
             return self.index_objlist(list(base), idx)
         if isinstance(base, (str, bytes)):
             if isinstance(idx, int):
-                if self.spec_mode or -len(base) <= idx < len(base):
+                if self.spec_mode:
+                    if 0 <= idx < len(base):
+                        return ord(base[idx]) if isinstance(base, str) else base[idx]
+                elif -len(base) <= idx < len(base):
                     return base[idx]
-                raise RaiseEx("IndexError")
+                else:
+                    raise RaiseEx("IndexError")
             base = self.as_seq(base)
         if not isinstance(base, SymSeq):
             raise Unsupported("indexing of %r" % (base,))
@@ -809,6 +861,13 @@ class Machine:
             if neg:
                 idx = simp(idx + ln)
         e = simp(base.elem(idx))
+        if not self.spec_mode:
+            self.byte_range_hint(e)
+            if is_z3(e) and isinstance(base.length, int) and base.length <= 256:
+                vals = [simp(base.elem(i)) for i in range(base.length)]
+                if all(isinstance(v, int) for v in vals) and vals:
+                    # a constant table read at a symbolic (in-range) index: its value lies between the table's extremes
+                    self.assume(z3.And(e >= min(vals), e <= max(vals)))
         if base.kind == "str" and not self.spec_mode:
             return SymSeq(conc_array([e]), 0, 1, "str")
         return e
@@ -869,7 +928,7 @@ class Machine:
         t = simp(term >= 0)
         if t is True:
             return
-        if solver.feasible(self.pc_qf, z3.Not(t)):
+        if self.feas(z3.Not(t)):
             raise Unsupported("%s may be negative (outside the modelled subset)" % what)
         self.assume(t)
 
@@ -949,6 +1008,8 @@ class Machine:
 
     def seq_item(self, s, k):
         e = simp(s.elem(k))
+        if not self.spec_mode:
+            self.byte_range_hint(e)
         if s.kind == "str":
             return SymSeq(conc_array([e]), 0, 1, "str")
         return e
@@ -975,12 +1036,31 @@ class Machine:
         return self.call(f, args, kwargs, node, env)
 
     def quantifier(self, which, node, env):
-        lo = to_z3(self.num(self.eval(node.args[0], env)))
-        hi = to_z3(self.num(self.eval(node.args[1], env)))
+        lo_v = self.num(self.eval(node.args[0], env))
+        hi_v = self.num(self.eval(node.args[1], env))
         lam = node.args[2]
         if not isinstance(lam, ast.Lambda) or len(lam.args.args) != 1:
             raise Unsupported("forall(lo, hi, lambda j: ...) expected")
         name = lam.args.args[0].arg
+        if isinstance(lo_v, int) and isinstance(hi_v, int) and hi_v - lo_v <= 64:
+            # small constant range: expand (exact)
+            parts = []
+            for jv in range(lo_v, hi_v):
+                self.overlay.append({name: jv})
+                try:
+                    parts.append(self.truthy(self.eval(lam.body, env)))
+                finally:
+                    self.overlay.pop()
+            if which == "forall":
+                if any(p is False for p in parts):
+                    return False
+                ps = [to_z3(p) for p in parts if p is not True]
+                return simp(z3.And(ps)) if ps else True
+            if any(p is True for p in parts):
+                return True
+            ps = [to_z3(p) for p in parts if p is not False]
+            return simp(z3.Or(ps)) if ps else False
+        lo, hi = to_z3(lo_v), to_z3(hi_v)
         j = self.fresh(name)
         self.overlay.append({name: j})
         try:
@@ -1032,7 +1112,8 @@ class Machine:
 
     def call_function(self, f, args, kwargs, node):
         """User function: through its contract if it has one, else inlined."""
-        contract = self.ctx.contract_for(self.unit["module"], f.qualname, self.unit["tag"])
+        fmod = getattr(f.env, "module", None) or self.unit["module"]
+        contract = self.ctx.contract_for(fmod, f.qualname, self.unit["tag"])
         fn = f.node
         names = [a.arg for a in fn.args.args]
         if kwargs or fn.args.vararg or fn.args.kwarg or fn.args.kwonlyargs or len(args) != len(names):
@@ -1042,7 +1123,7 @@ class Machine:
         if contract is None:
             sub = Env(f.env, f.qualname)
             sub.vars.update(zip(names, args))
-            self.ctx.inlined.add(self.unit["module"] + "." + f.qualname)
+            self.ctx.inlined.add(fmod + "." + f.qualname)
             try:
                 self.exec_block(fn.body, sub)
             except ReturnEx as r:
@@ -1113,7 +1194,7 @@ class Machine:
                 return simp(sq.elem(0))
             if not self.branch(ok, "ord@%d" % node.lineno):
                 raise RaiseEx("TypeError", "ord() expected a character")
-            return simp(sq.elem(0))
+            return self.byte_range_hint(simp(sq.elem(0)))
         if name == "chr":
             (v,) = args
             v = self.num(v)
@@ -1218,6 +1299,20 @@ class Machine:
                 a, b, v = to_z3(self.num(a)), to_z3(self.num(b)), to_z3(self.num(v))
                 self.assume(z3.ForAll([j], arr[j] == z3.If(z3.And(j >= a, j < b), v, s.elem(j))), qf_also=False)
                 return SymSeq(arr, 0, s.length, s.kind)
+            if name == "copy":
+                # copy(dst, at, src, frm, ln): dst with dst[at+k] = src[frm+k] for 0 <= k < ln
+                dst, at, src, frm, ln = args
+                d, s_ = self.as_seq(dst), self.as_seq(src)
+                arr = self.fresh("copy", "arr")
+                j = self.fresh("j")
+                at, frm, ln = to_z3(self.num(at)), to_z3(self.num(frm)), to_z3(self.num(ln))
+                self.assume(z3.ForAll([j], arr[j] == z3.If(z3.And(j >= at, j < at + ln), s_.elem(frm + j - at), d.elem(j))), qf_also=False)
+                return SymSeq(arr, 0, d.length, d.kind)
+            if name == "inst":
+                # inst('fact', term): the instance of a named entry fact (a universally quantified requires) at a term;
+                # sound by construction (an instance of a hypothesis)
+                q = self.facts[args[0]]
+                return z3.substitute_vars(q.body(), to_z3(self.num(args[1])))
             if name == "store":
                 img, a, v = args
                 s = self.as_seq(img)
@@ -1653,6 +1748,8 @@ class Machine:
         self.overlay.append(ovk)
         try:
             self.lemmas(spec.get("lemmas"), env, lid)
+            for u in spec.get("use", []):
+                self.assume(to_z3(self.truthy(self.eval_spec(u, env))))
         finally:
             self.overlay.pop()
         variant0 = None
@@ -1750,4 +1847,4 @@ class SpecFun:
 MUL = z3.Function("MUL", z3.IntSort(), z3.IntSort(), z3.IntSort())
 
 BUILTINS = {"ord", "chr", "len", "range", "int", "bytes", "min", "max", "print"}
-SPEC_BUILTINS = {"assume", "forall", "exists", "implies", "fmt", "ite", "fill", "store", "seq", "subseq", "as_str", "as_bytes", "as_list"}
+SPEC_BUILTINS = {"copy", "inst", "assume", "forall", "exists", "implies", "fmt", "ite", "fill", "store", "seq", "subseq", "as_str", "as_bytes", "as_list"}
